@@ -8,12 +8,15 @@ use crate::util::*;
 use charset_normalizer_rs::entity::CharsetMatches;
 
 pub mod c01;
+pub mod c03;
 pub mod c04;
 pub mod c05;
 pub mod c07;
 pub mod c08;
 pub mod c09;
 pub mod c10;
+pub mod c11;
+pub mod c12;
 pub mod c13;
 pub mod c14;
 pub mod c18;
@@ -128,7 +131,10 @@ pub type CustomRun = fn(bool, u64, Option<String>) -> Report;
 
 pub fn custom_by_id(id: &str) -> Option<CustomRun> {
     match id {
+        "C03" => Some(c03::run),
         "C08" => Some(c08::run),
+        "C11" => Some(c11::run),
+        "C12" => Some(c12::run),
         "C13" => Some(c13::run),
         "C14" => Some(c14::run),
         "C18" => Some(c18::run),
